@@ -123,17 +123,67 @@ def obj(*members):
     return ("o", list(members))
 
 
+def jt_members(t):
+    """members of an object node of an oracle tree ((5 ((k v)...))), else None"""
+    if isinstance(t, list) and len(t) == 2 and t[0] == 5:
+        return [(bytes(m[0]), m[1]) for m in t[1]]
+    return None
+
+
+def jt_get(t, key):
+    ms = jt_members(t)
+    if ms is None:
+        return None
+    for k, v in ms:
+        if k == key:
+            return v
+    return None
+
+
+def jt_str(t):
+    if isinstance(t, list) and len(t) == 2 and t[0] == 3:
+        return bytes(t[1])
+    return None
+
+
+def wire_details(err_tree, given):
+    """the details a rendered error carries, as the model's renderer wants them: (type value (debug-tree)?).
+    Type and value of the first len(given) ones are the INPUT's (so that the comparison of the rendering with the
+    model's means something); the debug trees (protojson: outside the model) and the details the server appends
+    (request info) are read off the rendering."""
+    arr = jt_get(err_tree, b"details")
+    elems = arr[1] if isinstance(arr, list) and len(arr) == 2 and arr[0] == 4 else []
+    out = []
+    for i, d in enumerate(elems):
+        dbg = jt_get(d, b"debug")
+        if i < len(given):
+            ty, val = given[i]
+        else:
+            ty, v64 = jt_str(jt_get(d, b"type")), jt_str(jt_get(d, b"value"))
+            if ty is None or v64 is None:
+                return None
+            try:
+                val = base64.b64decode(v64 + b"=" * (-len(v64) % 4), validate=True)
+            except Exception:
+                return None
+        out.append([ty, val, [] if dbg is None else [dbg]])
+    if len(elems) < len(given):
+        return None
+    return out
+
+
 class C13(Prop):
     id = "C13"
     props = "C13_Props"
-    coq_files = ("Base", "C13_Consts", "C13_Model", "C13_Spec", "C13_Proofs", "C13_Proofs2", "C13_Props")
+    coq_files = ("Base", "C13_Consts", "C13_Model", "C13_Spec", "C13_Proofs", "C13_Proofs2", "C13_Proofs3", "C13_Proofs4", "C13_Props")
     models = ("C13_Model",)
     consts = ("rc",)
     packages = {"rc": "internal/app/referenceclient", "rs": "internal/app/referenceserver"}
     kinds = {"c13.eos": "rc", "c13.status": "rc", "c13.binmeta": "rc", "c13.percent": "rc", "c13.classes": "rc",
              "c13.webrt": "rc", "c13.grpcrt": "rc", "c13.cerr": "rc", "c13.ces": "rc", "c13.wire": "rc",
-             "c13.nocrash": "rc", "c13.enc": "rs",
-             "c13.o.json": "rc", "c13.o.unstatus": "rc", "c13.o.webstatus": "rc", "c13.o.render": "rs"}
+             "c13.nocrash": "rc", "c13.enc": "rs", "c13.cerrrt": "rc", "c13.cesrt": "rc",
+             "c13.o.json": "rc", "c13.o.unstatus": "rc", "c13.o.webstatus": "rc", "c13.o.render": "rs",
+             "c13.o.cerrrender": "rs", "c13.o.cesrender": "rs"}
     rule = ("c13.classes: all 256 bytes through ShouldEscapeByteInMessage / isValidHTTPFieldName / isValidHTTPFieldValue; "
             "c13.percent: every one-byte message + random UTF-8 / invalid UTF-8 / '%' runs through PercentEncodeMessage, the "
             "grpc-message scanner and url.PathUnescape; c13.enc / c13.webrt / c13.grpcrt: structured errors (codes 0..17 and large, "
@@ -329,6 +379,61 @@ class C13(Prop):
             cases.append(["c13.grpcrt"] + with_digest([e[0], e[1], e[2], mo, tbl, st]))
             if i < n_wf:
                 blocks.append(block)
+
+        # C2. the Connect protocol: structured errors through the REAL reference server handlers + connect-go
+        #     (in-process): the unary error body and the end-of-stream message of a server stream
+        def utf8_message():
+            while True:
+                m = self._message(rng)
+                try:
+                    m.decode()
+                    return m
+                except UnicodeDecodeError:
+                    pass
+
+        def utf8_value():
+            r = rng.random()
+            if r < 0.75:
+                return self._wf_value(rng).decode("latin-1").encode()      # field-content bytes, as UTF-8
+            return rng.choice([b"a\x00b", b"\x7f", b"nl\n", b"cr\r", b"<&>", b'q"\\', "\u2028".encode(), b"\x1f", b"\tt", b" sp "])
+
+        def meta_trailers():
+            out = []
+            for _ in range(rng.choice([0, 0, 1, 1, 2, 3, 4])):
+                r = rng.random()
+                if r < 0.75:
+                    n = self._wf_name(rng)
+                    if out and rng.random() < 0.25:
+                        n = rng.choice(out)[0].swapcase()               # same field under another spelling: merged
+                elif r < 0.9:
+                    n = rng.choice([b"bad name", b"", b"a:b", b"x\x7f", "é".encode(), b"a/b", b"(x)", b"Content-Type", b"grpc-status"])
+                else:
+                    n = bytes(rng.choice(TOKEN) for _ in range(rng.randint(1, 3)))
+                out.append([n, [utf8_value() for _ in range(rng.choice([0, 1, 1, 2, 3]))]])
+            return out
+
+        cerr_in, ces_in = [], []
+        for code in range(1, 17):
+            cerr_in.append([code, b"", []])
+            cerr_in.append([code, b"msg %d" % code, self._details(rng, 1)])
+            ces_in.append([1, code, b"", [], [], 1])
+            ces_in.append([1, code, b"msg %d" % code, self._details(rng, 2), meta_trailers(), rng.choice([0, 1])])
+        for _ in range(250 if quick else 4000):
+            cerr_in.append([rng.choice([rng.randint(1, 16)] * 9 + [0, 17, 99]), utf8_message(), self._details(rng)])
+        for _ in range(600 if quick else 8000):
+            he = int(rng.random() < 0.75)
+            ces_in.append([he, rng.choice([rng.randint(1, 16)] * 9 + [0, 17, 99]) if he else 0, utf8_message() if he else b"",
+                           self._details(rng) if he else [], meta_trailers(), rng.choice([0, 1, 1, 2])])
+        crendered = self._oracle([["c13.o.cerrrender"] + e for e in cerr_in] + [["c13.o.cesrender"] + e for e in ces_in], "crender")
+        for cq in self._crashed:
+            raise core.HarnessError("C13: the reference server handler panicked on %s" % core.sx(cq)[:300])
+        connect_rt = []      # (kind, structured input, text)
+        for e, r in zip(cerr_in, crendered[:len(cerr_in)]):
+            if r:
+                connect_rt.append(("c13.cerrrt", e, bytes(r[0])))
+        for e, r in zip(ces_in, crendered[len(cerr_in):]):
+            if r:
+                connect_rt.append(("c13.cesrt", e, bytes(r[0])))
 
         # D. every single malformation of small real renderings
         eos_texts = []
@@ -643,6 +748,9 @@ class C13(Prop):
             for hs in (w[4], w[5]):
                 d = [v for k, v in hs if k == b"Grpc-Status-Details-Bin" and v]
                 q.append(["c13.o.unstatus", d[0][0] if d else b""])
+        n_wire = len(q)
+        for kind, e, text in connect_rt:
+            q.append(["c13.o.json", text])
         ans = self._oracle(q, "lib")
         for cq in self._crashed:         # an examiner / library call panicked on these bytes: "never crash" is violated
             cases.append(["c13.nocrash", cq[1]])
@@ -665,6 +773,25 @@ class C13(Prop):
             ct, st, body, eos, hdrs, trs, hd, er = w
             cases.append(["c13.wire", ct, st, body, a[0], [] if eos is None else [eos], a[1] if eos is not None else [],
                           hdrs, trs, hd, er, tbl(a[2], a[3], a[4])])
+
+        n_crt = 0
+        for (kind, e, text), r in zip(connect_rt, ans[n_wire:]):
+            if not r:
+                cases.append(["c13.nocrash", text])     # the rendering is not JSON: shows up as a disagreement below
+                continue
+            tree = r[0]
+            if kind == "c13.cerrrt":
+                ds = wire_details(tree, e[2])
+                if ds is not None:
+                    cases.append([kind] + with_digest([e[0], e[1], ds, text]))
+                    n_crt += 1
+            else:
+                ds = wire_details(jt_get(tree, b"error"), e[3]) if e[0] else []
+                if ds is not None:
+                    cases.append([kind] + with_digest([e[0], e[1], e[2], ds, e[4], text]))
+                    n_crt += 1
+        if n_crt < (len(connect_rt) * 9) // 10 or n_crt < 100:
+            raise core.HarnessError("C13: only %d of %d Connect renderings of the reference server became cases" % (n_crt, len(connect_rt)))
 
         # J. robustness: arbitrary bytes through every examiner
         pool = eos_texts + [c[1] for c in json_cases]
